@@ -6,173 +6,7 @@ global size_of usize == 8;
 
 //@include common/error.rs.inc
 
-//@extract sudachi/src/dic/word_id.rs :: struct WordId
-//@end
-impl WordId {
-//@extract sudachi/src/dic/word_id.rs :: impl WordId :: fn from_raw
-//@  ret r
-//@  spec
-        ensures r.raw == raw
-//@end
-//@extract sudachi/src/dic/word_id.rs :: impl WordId :: const EOS
-//@  rw Rc 1 custom
-//@  | WordId::from_raw\((\w+)\)
-//@  > WordId { raw: \1 }
-//@end
-}
-
-//@extract sudachi/src/dic/connect.rs :: struct ConnectionMatrix
-//@  rw R5 1 custom
-//@  | CowArray<'a, i16>
-//@  > Vec<i16>, _lt: core::marker::PhantomData<&'a ()>
-//@end
-//@include specs/conn_specs.rs.inc
-impl<'a> ConnectionMatrix<'a> {
-//@extract sudachi/src/dic/connect.rs :: impl<'a> ConnectionMatrix<'a> :: fn cost
-//@  stub v_conn
-//@  ret c
-//@  specfile specs/conn_cost.contract
-//@end
-}
-
-// ---- accessor traits (node.rs): spec twins of the accessors are annotation only
-trait RightId {
-    spec fn sp_right_id(&self) -> u16;
-//@extract sudachi/src/analysis/node.rs :: trait RightId :: fn right_id
-//@  ret r
-//@  spec
-        ensures r == self.sp_right_id()
-//@end
-}
-trait PathCost {
-    spec fn sp_total_cost(&self) -> i32;
-//@extract sudachi/src/analysis/node.rs :: trait PathCost :: fn total_cost
-//@  ret r
-//@  spec
-        ensures r == self.sp_total_cost()
-//@end
-//@extract sudachi/src/analysis/node.rs :: trait PathCost :: fn is_connected_to_bos
-//@  ret r
-//@  spec
-        ensures r == (self.sp_total_cost() != i32::MAX)
-//@end
-}
-trait LatticeNode: RightId {
-    spec fn sp_begin(&self) -> usize;
-    spec fn sp_end(&self) -> usize;
-    spec fn sp_cost(&self) -> i16;
-    spec fn sp_left_id(&self) -> u16;
-    spec fn sp_word_id(&self) -> WordId;
-//@extract sudachi/src/analysis/node.rs :: trait LatticeNode :: fn begin
-//@  ret r
-//@  spec
-        ensures r == self.sp_begin()
-//@end
-//@extract sudachi/src/analysis/node.rs :: trait LatticeNode :: fn end
-//@  ret r
-//@  spec
-        ensures r == self.sp_end()
-//@end
-//@extract sudachi/src/analysis/node.rs :: trait LatticeNode :: fn cost
-//@  ret r
-//@  spec
-        ensures r == self.sp_cost()
-//@end
-//@extract sudachi/src/analysis/node.rs :: trait LatticeNode :: fn word_id
-//@  ret r
-//@  spec
-        ensures r == self.sp_word_id()
-//@end
-//@extract sudachi/src/analysis/node.rs :: trait LatticeNode :: fn left_id
-//@  ret r
-//@  spec
-        ensures r == self.sp_left_id()
-//@end
-}
-
-//@extract sudachi/src/analysis/inner.rs :: struct NodeIdx
-//@end
-impl NodeIdx {
-//@extract sudachi/src/analysis/inner.rs :: impl NodeIdx :: fn empty
-//@  ret r
-//@  spec
-        ensures r.end == u16::MAX, r.index == u16::MAX
-//@end
-//@extract sudachi/src/analysis/inner.rs :: impl NodeIdx :: fn new
-//@  ret r
-//@  spec
-        ensures r.end == end, r.index == index
-//@end
-//@extract sudachi/src/analysis/inner.rs :: impl NodeIdx :: fn end
-//@  ret r
-//@  spec
-        ensures r == self.end
-//@end
-//@extract sudachi/src/analysis/inner.rs :: impl NodeIdx :: fn index
-//@  ret r
-//@  spec
-        ensures r == self.index
-//@end
-}
-
-//@extract sudachi/src/analysis/inner.rs :: struct Node
-//@  derive
-//@end
-impl Node {
-//@extract sudachi/src/analysis/inner.rs :: impl Node :: fn new
-//@  ret r
-//@  spec
-        ensures r.begin == begin, r.end == end, r.left_id == left_id, r.right_id == right_id, r.cost == cost, r.word_id == word_id
-//@end
-}
-impl RightId for Node {
-    spec fn sp_right_id(&self) -> u16 { self.right_id }
-//@extract sudachi/src/analysis/inner.rs :: impl RightId for Node :: fn right_id
-//@end
-}
-impl LatticeNode for Node {
-    spec fn sp_begin(&self) -> usize { self.begin as usize }
-    spec fn sp_end(&self) -> usize { self.end as usize }
-    spec fn sp_cost(&self) -> i16 { self.cost }
-    spec fn sp_left_id(&self) -> u16 { self.left_id }
-    spec fn sp_word_id(&self) -> WordId { self.word_id }
-//@extract sudachi/src/analysis/inner.rs :: impl LatticeNode for Node :: fn begin
-//@end
-//@extract sudachi/src/analysis/inner.rs :: impl LatticeNode for Node :: fn end
-//@end
-//@extract sudachi/src/analysis/inner.rs :: impl LatticeNode for Node :: fn cost
-//@end
-//@extract sudachi/src/analysis/inner.rs :: impl LatticeNode for Node :: fn word_id
-//@end
-//@extract sudachi/src/analysis/inner.rs :: impl LatticeNode for Node :: fn left_id
-//@end
-}
-
-//@extract sudachi/src/analysis/lattice.rs :: struct VNode
-//@end
-impl RightId for VNode {
-    spec fn sp_right_id(&self) -> u16 { self.right_id }
-//@extract sudachi/src/analysis/lattice.rs :: impl RightId for VNode :: fn right_id
-//@end
-}
-impl PathCost for VNode {
-    spec fn sp_total_cost(&self) -> i32 { self.total_cost }
-//@extract sudachi/src/analysis/lattice.rs :: impl PathCost for VNode :: fn total_cost
-//@end
-}
-impl VNode {
-//@extract sudachi/src/analysis/lattice.rs :: impl VNode :: fn new
-//@  ret r
-//@  spec
-        ensures r.right_id == right_id, r.total_cost == total_cost
-//@end
-}
-
-//@extract sudachi/src/analysis/lattice.rs :: struct Lattice
-//@end
-
-//@include specs/lattice_specs.rs.inc
-//@include specs/lattice_lemmas.rs.inc
+//@include common/lattice_types.rs.inc
 
 impl Lattice {
 //@extract sudachi/src/analysis/lattice.rs :: impl Lattice :: fn reset_vec
@@ -194,11 +28,7 @@ impl Lattice {
 //@end
 
 //@extract sudachi/src/analysis/lattice.rs :: impl Lattice :: fn reset
-//@  spec
-        requires length <= 65535,
-            // the three parallel arrays have one row per boundary (true of Lattice::default(), kept by every operation)
-            old(self).ends@.len() == old(self).ends_full@.len(), old(self).ends@.len() == old(self).indices@.len(),
-        ensures lat_fresh(*final(self), length as int),
+//@  specfile specs/lat_reset.contract
 //@end
 
 //@extract sudachi/src/analysis/lattice.rs :: impl Lattice :: fn connect_bos
@@ -213,17 +43,7 @@ impl Lattice {
 
 //@extract sudachi/src/analysis/lattice.rs :: impl Lattice :: fn connect_eos
 //@  ret r
-//@  spec
-        requires lat_wf(*old(self), *conn), strict_no_overflow(*old(self), *conn, eos_node(*old(self))),
-        ensures
-            final(self).ends == old(self).ends, final(self).ends_full == old(self).ends_full,
-            final(self).indices == old(self).indices, final(self).size == old(self).size,
-            // an error exactly when no connected node ends at the last boundary
-            r is Err <==> (forall|k: int| 0 <= k < old(self).ends@[old(self).size - 1]@.len() ==> !connected(#[trigger] old(self).ends@[old(self).size - 1]@[k])),
-            r is Ok ==> final(self).eos is Some
-                && is_best(*old(self), *conn, eos_node(*old(self)), final(self).eos->Some_0.0, final(self).eos->Some_0.1 as int)
-                && final(self).eos->Some_0.1 != i32::MAX,
-            r is Err ==> final(self).eos == old(self).eos,
+//@  specfile specs/lat_connect_eos.contract
 //@  before let (idx, cost) = self.connect_node(&node, conn);
         proof {
             assert(node == eos_node(*self));
@@ -237,24 +57,7 @@ impl Lattice {
 
 //@extract sudachi/src/analysis/lattice.rs :: impl Lattice :: fn insert
 //@  ret cost
-//@  spec
-        requires
-            lat_wf(*old(self), *conn),
-            node.begin < node.end, (node.end as int) < old(self).size,
-            (node.left_id as int) < conn.num_right, (node.right_id as int) < conn.num_left,
-            old(self).ends@[node.end as int]@.len() < u16::MAX,
-            // left-to-right construction: nothing stored so far begins where this node ends
-            forall|e: int, k: int| has(*old(self), e, k) ==> (#[trigger] node_at(*old(self), e, k)).begin != node.end,
-            strict_no_overflow(*old(self), *conn, node),
-        ensures
-            lat_wf(*final(self), *conn),
-            final(self).size == old(self).size, final(self).eos == old(self).eos,
-            final(self).ends@.len() == old(self).ends@.len(),
-            final(self).ends_full@[node.end as int]@ == old(self).ends_full@[node.end as int]@.push(node),
-            forall|e: int| 0 <= e < old(self).ends@.len() && e != node.end ==> final(self).ends@[e] == old(self).ends@[e]
-                && final(self).ends_full@[e] == old(self).ends_full@[e] && final(self).indices@[e] == old(self).indices@[e],
-            is_best(*old(self), *conn, node, final(self).indices@[node.end as int]@.last(), cost as int),
-            final(self).ends@[node.end as int]@.last().total_cost == cost,
+//@  specfile specs/lat_insert.contract
 //@  before let (idx, cost) = self.connect_node(&node, conn);
         proof {
             assert(ids_ok(*self, *conn, node)) by {
@@ -274,8 +77,7 @@ impl Lattice {
 //@  | self\.ends\.get\(i\)\.map\(\|d\| !d\.is_empty\(\)\)\.unwrap_or\(false\)
 //@  > (i < self.ends.len() && !self.ends[i].is_empty())
 //@  ret r
-//@  spec
-        ensures r == (i < self.ends@.len() && self.ends@[i as int]@.len() > 0),
+//@  specfile specs/lat_has_previous_node.contract
 //@end
 
 //@extract sudachi/src/analysis/lattice.rs :: impl Lattice :: fn node
